@@ -698,7 +698,11 @@ impl FinishedSession {
         if let Some(rollback_delta) = self.rollback_delta {
             // UNWRAP: if rollback_delta is `Some`, then rollback must be also `Some`.
             let rollback = nomt.store.rollback().unwrap();
-            rollback.commit(rollback_delta)?;
+            if let Err(e) = rollback.commit(rollback_delta) {
+                // the rollback log may hold a torn record: no further commits on this handle.
+                nomt.store.poison();
+                return Err(e);
+            }
         }
 
         nomt.store.commit(
@@ -745,9 +749,17 @@ impl FinishedSession {
         if let Some(rollback_delta) = self.rollback_delta {
             // UNWRAP: if rollback_delta is `Some`, then rollback must be also `Some`.
             let rollback = nomt.store.rollback().unwrap();
-            if let Some(delta) = rollback.commit_nonblocking(rollback_delta)? {
-                self.rollback_delta = Some(delta);
-                return Ok(Some(self));
+            match rollback.commit_nonblocking(rollback_delta) {
+                Ok(Some(delta)) => {
+                    self.rollback_delta = Some(delta);
+                    return Ok(Some(self));
+                }
+                Ok(None) => (),
+                Err(e) => {
+                    // the rollback log may hold a torn record: no further commits on this handle.
+                    nomt.store.poison();
+                    return Err(e);
+                }
             }
         }
 
@@ -814,7 +826,11 @@ impl Overlay {
         if let Some(rollback_delta) = rollback_delta {
             // UNWRAP: if rollback_delta is `Some`, then rollback must be also `Some`.
             let rollback = nomt.store.rollback().unwrap();
-            rollback.commit(rollback_delta)?;
+            if let Err(e) = rollback.commit(rollback_delta) {
+                // the rollback log may hold a torn record: no further commits on this handle.
+                nomt.store.poison();
+                return Err(e);
+            }
         }
 
         nomt.store
@@ -871,7 +887,11 @@ impl Overlay {
         if let Some(rollback_delta) = rollback_delta {
             // UNWRAP: if rollback_delta is `Some`, then rollback must be also `Some`.
             let rollback = nomt.store.rollback().unwrap();
-            rollback.commit(rollback_delta)?;
+            if let Err(e) = rollback.commit(rollback_delta) {
+                // the rollback log may hold a torn record: no further commits on this handle.
+                nomt.store.poison();
+                return Err(e);
+            }
         }
 
         nomt.store
